@@ -18,7 +18,15 @@ def _with_state_lock(func):
 
     async def wrapper(obj: 'TransferState', *args, **kwargs):
         async with obj.transfer._state_lock:
-            result = await func(*args, **kwargs)
+            # The state of the transfer can have changed while waiting for the
+            # lock: the current state decides whether the transition is allowed,
+            # not the state the method was looked up on
+            current = obj.transfer.state
+            if current is not obj and isinstance(current, TransferState):
+                method = getattr(current.__class__, func.__name__)
+                result = await method(current, *args, **kwargs)
+            else:
+                result = await func(*args, **kwargs)
         return result
 
     return wrapper
